@@ -524,7 +524,7 @@ func init() {
 		Shards: shards(12, 16),
 		Meta: func(tier string) rt.Meta {
 			return rt.Meta{Level: "exploration", MinEvals: 5000, MinDistinct: 60,
-				Rule:        "built with -tags avfs_setostype. (a) construction: MemFS and OrefaFS created with OSType Linux / Windows report that type, the feature, the separator, the initial directory, Join/IsAbs of the type, an existing TempDir, an error of the right family (avfs.LinuxError / avfs.WindowsError) that still is fs.ErrNotExist, and the volume list. Also MemFS constructed with an explicit identity manager of the other type, of the same type, and the one that implements nothing. (b) sibling lockstep: one generated history of 60-120 calls (C01 templates on portable paths under /w: create, write through handles, mkdir, remove, rename, link, symlink, truncate, chmod, chdir, reads) is run by the administrator on a Linux-typed and on a Windows-typed instance, the Windows operands converted with FromUnixPath/FromSlash; after every call: both succeed or both fail, no Windows-typed call returns an avfs.LinuxError and no Linux-typed call an avfs.WindowsError anywhere in its error chain, returned data agree, current directories agree, and the trees under /w are isomorphic after ToSlash + volume stripping (names, types, sizes, contents, link counts, hard-link classes, link targets). (c) volumes: random VolumeAdd/VolumeDelete/WriteFile sequences over 11 spellings on a Windows-typed MemFS against a set model (documented error values, VolumeList == model, files of one volume invisible on the others, a deleted volume is gone with its files). Chdir through directory handles (volume root, /w, deeper) is compared, one history in four starting with them. Signature = fs | call class | outcome.",
+				Rule:        "built with -tags avfs_setostype. (a) construction: MemFS and OrefaFS created with OSType Linux / Windows report that type, the feature, the separator, the initial directory, Join/IsAbs of the type, an existing TempDir, an error of the right family (avfs.LinuxError / avfs.WindowsError) that still is fs.ErrNotExist, and the volume list. Also MemFS constructed with an explicit identity manager of the other type, of the same type, and the one that implements nothing. (b) sibling lockstep: one generated history of 60-120 calls (C01 templates on portable paths under /w: create, write through handles, mkdir, remove, rename, link, symlink, truncate, chmod, chdir, reads) is run by the administrator on a Linux-typed and on a Windows-typed instance, the Windows operands converted with FromUnixPath/FromSlash; after every call: both succeed or both fail, no Windows-typed call returns an avfs.LinuxError and no Linux-typed call an avfs.WindowsError anywhere in its error chain, returned data agree, current directories agree, and the trees under /w are isomorphic after ToSlash + volume stripping (names, types, sizes, contents, link counts, hard-link classes, link targets). (c) volumes: random VolumeAdd/VolumeDelete/WriteFile sequences over 11 spellings on a Windows-typed MemFS against a set model (documented error values, VolumeList == model, files of one volume invisible on the others, a deleted volume is gone with its files). Chdir through directory handles (volume root, /w, deeper) is compared, one history in four starting with them. One history in three uses names that differ by letter case only. Signature = fs | call class | outcome.",
 				Assumptions: []string{"Chown/Lchown are not issued and modes/owners are not compared (documented as OS-specific)", "temp-file helpers are left out: their names are random per instance", "case-insensitivity of Windows names is not judged (no two spellings differing only by case are generated)"}}
 		},
 		Run: func(c *rt.Ctx) {
